@@ -92,6 +92,20 @@ func TestSim(t *testing.T) {
 		os.Exit(runOne(t, p, j))
 	case "shrink":
 		shrinkJob(t, p, j)
+	case "trace":
+		// determinism self-test: one line per generated case (seed, verdict, class, trace hash, steps); the
+		// caller runs this in several processes under different GOMAXPROCS and diffs the outputs
+		var sb strings.Builder
+		for i := 0; i < j.MaxRuns; i++ {
+			seed := runSeed(j.Seed, j.Offset+uint64(i))
+			c := p.Gen(seed, j.Tier)
+			r := safeRun(t, p, c)
+			fmt.Fprintf(&sb, "%d %s %s %x %d\n", seed, r.Verdict, r.Class, r.TraceHash, r.Counters["sched_steps"])
+		}
+		if err := os.WriteFile(j.Out, []byte(sb.String()), 0o644); err != nil {
+			fmt.Fprintf(os.Stderr, "harness: %v\n", err)
+			os.Exit(2)
+		}
 	default:
 		fmt.Fprintf(os.Stderr, "harness: unknown mode %q\n", j.Mode)
 		os.Exit(2)
